@@ -1237,7 +1237,12 @@ def _record(res, case, fn):
 # =============================================================================================
 
 SAVE_AS = [None, "", "/", "x", "dir/", "ABS"]       # ABS: absolute-looking path that points into the scratch area (never a real /x)
-CIDS = ["c1", "..", "../..", "a/b", "CABS"]      # container ids; CABS: an absolute path inside the scratch area
+# save_as forms for the families that hand save_as to the serializer VERBATIM (DatasourceProvider, directly constructed
+# providers): the bare "/" is left out on purpose - "/" + basename is a short absolute name (/f, /d, /echo_a), and a
+# defective serializer (e.g. the reverted archive-location fix) would write it into the machine's real root directory.
+# One leading slash is covered by the scratch-embedded absolute forms (ABS...).
+SAVE_AS_VERBATIM = [None, "", "x", "dir/", "ABS"]
+CIDS = ["c1", "..", "../..", "a/b", "CABS", "CABS2", "CABS3", "CABS2DOT"]      # container ids; CABS: an absolute path inside the scratch area
 C_FILE_FACTORIES = ["simple_file", "first_file", "glob_file", "foreach_collect"]
 CMD_TOKENS = ["/", "..", " ", ";", "$", "a", "L300"]
 LABEL_SEG = {"quick": ["..", "d", "f"], "thorough": ["..", "d", "f", "root"]}
@@ -1252,17 +1257,42 @@ def expand_tokens(toks):
     return "".join("x" * 300 if t == "L300" else t for t in toks)
 
 
+ABS_FORMS = ["ABS0", "ABS", "ABS2", "ABS3", "ABS2DIR", "ABS2DOT", "ABS3DOT"]
+SA_BOUNDARY = [".", "./", "..", "../", "../x", "./x", "x/..", "dir//", "dir/.", "dir/./"]
+
+
+def abs_form(tag, T, word):
+    """Leading-slash family.  The absolute part always lies inside the scratch area (never a short name like //x: under a
+    defective implementation that one would be written to the machine's real /x).
+      <W>0 no leading slash, <W> one, <W>2 two (POSIX normpath keeps exactly two), <W>3 three;
+      ...DIR directory style (trailing slash); ...DOT with a 'd/..' inside the absolute part."""
+    k = {"0": 0, "": 1, "2": 2, "3": 3}[tag[len(word):len(word) + 1] if tag[len(word):len(word) + 1] in "023" and tag[len(word):] else ""]
+    rest = tag[len(word):].lstrip("023")
+    body = os.path.join(T, "abs" + tag.lower()[len(word):], "x").lstrip("/")
+    if rest == "DIR":
+        body = os.path.join(T, "abs" + tag.lower()[len(word):]).lstrip("/") + "/"
+    elif rest == "DOT":
+        body = os.path.join(T, "abs" + tag.lower()[len(word):], "d", "..", "y").lstrip("/")
+    return "/" * k + body
+
+
 def save_as_value(sa, T):
-    if sa == "ABS":
-        return os.path.join(T, "abs", "x")
+    if sa is not None and sa.startswith("ABS"):
+        return abs_form(sa, T, "ABS")
     return sa
+
+
+def label_value(p, T):
+    if p.startswith("LABS"):
+        return abs_form(p, T, "LABS")
+    return p
 
 
 def cid_value(cid, T):
     if cid is None:
         return "c1"
-    if cid == "CABS":
-        return os.path.join(T, "cabs")
+    if cid.startswith("CABS"):
+        return abs_form(cid, T, "CABS").rstrip("/")
     return cid
 
 
@@ -1306,8 +1336,24 @@ def c_add_spec(b, name, case, T):
     elif fam == "container_file":
         b.add(name, sf.container_collect(b.source([("img", "env", cid_value(case.get("cid"), T), "/" + case["path"])]), context=HC),
               "multi", [], "command", multi_output=True)
+    elif fam == "direct":
+        # providers constructed directly by a custom datasource: save_as reaches the serializer verbatim (the factories strip it)
+        kind, path = case["kind"], case["path"]
+        TP, RP, CP = sf.TextFileProvider, sf.RawFileProvider, sf.CommandOutputProvider
+
+        def c06_direct(broker):
+            ctx = broker[HC]
+            if kind == "Text":
+                return TP(path, root=ctx.root, save_as=sa, ctx=ctx)
+            if kind == "Raw":
+                return RP(path, root=ctx.root, save_as=sa, ctx=ctx)
+            return CP("/bin/echo " + path, ctx, save_as=sa)
+        c06_direct.__module__ = b.modname
+        c06_direct.__qualname__ = c06_direct.__name__ = "c06_direct_" + name
+        ds = I["plugins"].datasource(HC)(c06_direct)
+        b.add(name, ds, "single", [], "file", raw=(kind == "Raw"))
     elif fam == "datasource_provider":
-        path = case["path"]
+        path = label_value(case["path"], T)
         DP = sf.DatasourceProvider
 
         def c06_label(broker):
@@ -1340,8 +1386,10 @@ def c_features(case, created_outside):
     path = case.get("path")
     if path is not None and sa is None and ".." in path.split("/"):
         via = "dotdot_in_relative_path"
-    elif sa == "ABS":
+    elif sa is not None and sa.startswith("ABS"):
         via = "absolute_save_as"
+    elif path is not None and path.startswith("LABS") or str(case.get("cid", "")).startswith("CABS"):
+        via = "absolute_label_or_id"
     return {"persist_escape_via": via, "provider_family": fam}
 
 
@@ -1528,7 +1576,10 @@ def c_cases_file(root, tier, links):
     for p in paths:
         for f in C_FILE_FACTORIES:
             for kind in KINDS:
-                for sa in SAVE_AS:
+                sas = SAVE_AS + ["ABS2"]
+                if len(p.split("/")) == 1:          # the whole leading-slash / boundary family for the one-segment paths
+                    sas = sas + [x for x in ABS_FORMS + SA_BOUNDARY if x not in sas]
+                for sa in sas:
                     yield {"part": "C", "links": links, "family": "file", "factory": f, "kind": kind, "save_as": sa, "path": p}
 
 
@@ -1539,6 +1590,9 @@ def c_cases_other(tier, family):
             if all(t == " " for t in toks):
                 continue            # "/bin/echo " followed by blanks only: same command as shorter ones after shlex
             sas = SAVE_AS if (tier == "thorough" or len(toks) <= 2) else [None]      # quick: save_as forms for <= 2 tokens
+            if len(sas) > 1:
+                sas = sas + ["ABS2"] + (SA_BOUNDARY + ABS_FORMS if len(toks) == 1 else [])
+                sas = [x for i, x in enumerate(sas) if x not in sas[:i]]
             for f in ("simple_command", "command_with_args", "foreach_execute", "container_execute"):
                 for sa in (sas if f in ("simple_command", "command_with_args") else [None]):
                     yield {"part": "C", "links": [], "family": "command", "factory": f, "save_as": sa, "tokens": list(toks)}
@@ -1546,10 +1600,26 @@ def c_cases_other(tier, family):
                 for cid in CIDS[1:]:
                     yield {"part": "C", "links": [], "family": "command", "factory": "container_execute", "save_as": None,
                            "tokens": list(toks), "cid": cid}
+    elif family == "direct":
+        allf = SAVE_AS_VERBATIM + ABS_FORMS + SA_BOUNDARY
+        forms = [x for i, x in enumerate(allf) if x not in allf[:i]]
+        for kind in ("Text", "Raw", "Command"):
+            for p in (("f", "d/f", "d/../f") if kind != "Command" else ("a", "a/b")):
+                for sa in forms:
+                    yield {"part": "C", "links": [], "family": "direct", "kind": kind, "save_as": sa, "path": p}
     else:
         n = BOUNDS[tier]["C_label_segments"]
+        if family == "datasource_provider":
+            # leading-slash family and boundary spellings of save_as for the short labels; absolute labels
+            for p in ("", "f", "d/f", "../f"):
+                for sa in ABS_FORMS + SA_BOUNDARY:
+                    if sa != "ABS":
+                        yield {"part": "C", "links": [], "family": family, "save_as": sa, "path": p}
+            for p in ["LABS0", "LABS", "LABS2", "LABS3", "LABS2DIR", "LABS2DOT", "LABS3DOT"]:
+                for sa in (None, "dir/", "ABS2DIR"):
+                    yield {"part": "C", "links": [], "family": family, "save_as": sa, "path": p}
         for p in all_paths(LABEL_SEG[tier], 0, n):         # from the empty label / the path "/"
-            for sa in (SAVE_AS if family == "datasource_provider" else [None]):
+            for sa in (SAVE_AS_VERBATIM if family == "datasource_provider" else [None]):
                 yield {"part": "C", "links": [], "family": family, "save_as": sa, "path": p}
             if family == "container_file" and len(p.split("/")) <= 3:
                 for cid in CIDS[1:]:
@@ -1662,7 +1732,7 @@ def units(tier, seed):
     for links in C2_LAYOUTS[tier]:
         for i in range(4):
             us.append({"part": "C", "family": "history", "links": links, "shard": i, "of": 4})
-    for fam, n in (("command", 8), ("container_file", 2), ("datasource_provider", 4)):
+    for fam, n in (("command", 8), ("container_file", 2), ("datasource_provider", 4), ("direct", 1)):
         for i in range(n):
             us.append({"part": "C", "family": fam, "links": [], "shard": i, "of": n})
     for i in range(8):
